@@ -324,3 +324,20 @@ fn pk_witness() {
     std::mem::forget(p);
     std::mem::forget(q);
 }
+
+// =====================================================================================================================
+// CONTRACT function for the RenetClient-level lemmas (variant "contracts"): tools/stage.py re-points the call
+// `Packet::from_bytes(..)` in remote_connection.rs at this function, which hands out the packet the harness prepared -
+// ANY packet satisfying V, the validity predicate that parse_total_* establishes for every Ok value of the real parser
+// (slice count 1..=10^6, reliable slice payload 1..=1200, ack ranges non-empty / ascending / separated) - or an error.
+pub(crate) static mut NEXT_PACKET: Option<Result<Packet, SerializationError>> = None;
+
+impl Packet {
+    pub(crate) fn verif_from_bytes(_b: &mut octets::Octets) -> Result<Packet, SerializationError> {
+        #[allow(static_mut_refs)]
+        match unsafe { NEXT_PACKET.take() } {
+            Some(r) => r,
+            None => Err(SerializationError::BufferTooShort),
+        }
+    }
+}
